@@ -80,7 +80,7 @@ impl Subscriber for SubscriberService {
 
         let subscription = self
             .subscription_manager
-            .create_subscription(subscription_info, Arc::clone(&topic))
+            .create_subscription(subscription_info.clone(), Arc::clone(&topic))
             .await
             .map_err(|e| match e {
                 CreateSubscriptionError::AlreadyExists => Status::already_exists(format!(
@@ -94,9 +94,12 @@ impl Subscriber for SubscriberService {
             })?;
 
         // Retrieve the info from the create subscription, in case any changes were made.
-        let subscription_info = subscription.get_info().await.map_err(|e| match e {
-            GetInfoError::Closed => conflict(),
-        })?;
+        // The subscription has been created at this point; if a racing DeleteSubscription has
+        // already removed it again, the create still succeeded: answer with what was created.
+        let subscription_info = match subscription.get_info().await {
+            Ok(info) => info,
+            Err(GetInfoError::Closed) => subscription_info,
+        };
         log::debug!(
             "{}: creating subscription {}",
             subscription_name.clone(),
